@@ -33,7 +33,7 @@ from .common import cfg_consts, tla_set
 
 MODS = ["Expire.tla", "ExpireGen.tla", "ExpireSim.tla", "ExpireTrace.tla"]
 UNIT_MS = 100                      # real time per tick of the design machine
-P_US, SLACK_US, LAG_US, FRESH_US = 200000, 1000000, 1000000, 2000000
+P_US, SLACK_US, LAG_US, FRESH_US = 200000, 600000, 1000000, 2000000
 STALL_LIMIT_MS = 300               # stall evidence above this explains a lateness (never a verdict)
 PAR = str(max(4, min(common.NCPU - 2, 12)))
 
@@ -129,7 +129,7 @@ def generate(ctx):
         try:
             name, keys, ids, hooks, chans, ttls, maxops, maxnow = cfgs[n]
             r = ctx.tlc(name, MODS[:2], mc(name, "ExpireGen", keys, ids, hooks, chans, ttls),
-                        "SPECIFICATION GenSpec\n" + consts(MaxNow=maxnow, MaxOps=maxops, MarginP=3, MarginA=8) +
+                        "SPECIFICATION GenSpec\n" + consts(MaxNow=maxnow, MaxOps=maxops, MarginP=3, MarginA=10, Horizon=12) +
                         "VIEW GenView\nINVARIANT NeverEarly Bounded NoStaleTimer ExpiryIsLoggedDel\nPROPERTY Emit\n",
                         workers=1, timeout=2400)
             if not r["ok"]:
@@ -160,12 +160,16 @@ def generate(ctx):
 
 
 SIM_TTLS = [0, 1, 2, 3, 5, 8, 12, 15, 25, 40]
-KEYS8 = ["k%d" % n for n in range(1, 9)]
+KEYS12 = ["k%d" % n for n in range(1, 13)]
+W_MIX = [22, 32, 46, 54, 60, 66, 76, 84, 92, 95]       # set+EX, set, expire, persist, fset, jset, del, rename, sethook+EX, sethook | delhook
+W_BURST = [80, 82, 92, 93, 94, 95, 98, 98, 99, 99]     # nearly all SET EX / EXPIRE with one TTL
 
 
-def simulate(ctx, name, num, maxops, maxnow, keys=("k1", "k2"), ids=("a", "b"), ttls=SIM_TTLS, tickpct=55):
-    r = ctx.tlc(name, MODS[:3], mc(name, "ExpireSim", list(keys), list(ids), ["h1"], ["c1"], ttls),
-                "SPECIFICATION SimSpec\n" + consts(MaxNow=maxnow, MaxOps=maxops, MarginP=3, MarginA=8, TickPct=tickpct) +
+def simulate(ctx, name, num, maxops, maxnow, keys=("k1", "k2"), ids=("a", "b"), ttls=SIM_TTLS, tickpct=55, weights=W_MIX):
+    text = mc(name, "ExpireSim", list(keys), list(ids), ["h1"], ["c1"], ttls).replace(
+        "====", "MCW == <<%s>>\n====" % ", ".join(str(w) for w in weights))
+    r = ctx.tlc(name, MODS[:3], text,
+                "SPECIFICATION SimSpec\n" + consts(MaxNow=maxnow, MaxOps=maxops, MarginP=3, MarginA=10, Horizon=12, TickPct=tickpct, W="<- MCW") +
                 "INVARIANT NeverEarly Bounded NoStaleTimer ExpiryIsLoggedDel TTLReports\n",
                 workers=1, simulate=num, depth=400, timeout=900)
     if not r["ok"]:
@@ -247,7 +251,7 @@ def split_trace(trace):
 
 def judge(ctx, by_sc, label, chunks=3, wide=()):
     """TLC (ExpireTrace) on the recorded scenarios. Returns (rejections, summed counters).
-    `wide`: scenarios over the eight-key universe (judged apart: the constants of a TLC run are its key set)."""
+    `wide`: scenarios over the twelve-key universe (judged apart: the constants of a TLC run are its key set)."""
     scs = sorted(sc for sc in by_sc if sc not in wide)
     wides = sorted(sc for sc in by_sc if sc in wide)
     if not scs and not wides:
@@ -267,8 +271,8 @@ def judge(ctx, by_sc, label, chunks=3, wide=()):
                 for sc in parts[i]:
                     f.writelines(by_sc[sc])
             name = "trace_%s_%d" % (label, i)
-            keys = KEYS8 if parts[i] is wides else KEYS8[:2]
-            r = ctx.tlc(name, [MODS[0], MODS[3]], mc(name, "ExpireTrace", keys, ["a", "b"], ["h1"], ["c1"], []),
+            keys, ids = (KEYS12, ["a"]) if parts[i] is wides else (KEYS12[:2], ["a", "b"])
+            r = ctx.tlc(name, [MODS[0], MODS[3]], mc(name, "ExpireTrace", keys, ids, ["h1"], ["c1"], []),
                         "SPECIFICATION TraceSpec\n" + consts(P=P_US, Slack=SLACK_US, Sec=1000000, MaxNow=0, MaxOps=0, Lag=LAG_US, Fresh=FRESH_US) +
                         "INVARIANT ModelOK\nPOSTCONDITION Consumed\n", workers=1, timeout=1800, files=[path])
             if not r["ok"]:
@@ -323,7 +327,7 @@ def run_and_judge(ctx, progs, label, report=True, retries=2):
     trace, runs = execute(ctx, progs, label)
     t1 = time.time()
     by_sc = split_trace(trace)
-    wide = {p["sc"] for p in progs if any(s.get(x) in KEYS8[2:] for s in p["h"] for x in ("k", "k2"))}
+    wide = {p["sc"] for p in progs if any(s.get(x) in KEYS12[2:] for s in p["h"] for x in ("k", "k2"))}
     rejs, cnt = judge(ctx, by_sc, label, wide=wide)
     ctx.log("%s: %d programs executed in %.0fs (%d trace lines), judged by TLC in %.0fs" % (
         label, len(progs), t1 - t0, sum(len(v) for v in by_sc.values()), time.time() - t1))
@@ -509,7 +513,7 @@ def run(ctx):
         cover_hook, nshapes_hook = pick_cover(covers[2], ctx.pick(30, 300), rng)
         sims, rsim = simulate(ctx, "sim", ctx.pick(100, 500), ctx.pick(10, 14), ctx.pick(24, 30))
         # bursts: many collections whose objects expire in the same sweep (one TTL, hardly any time between the commands)
-        burst, _ = simulate(ctx, "burst", ctx.pick(16, 80), 14, 6, keys=KEYS8, ids=("a",), ttls=[5], tickpct=8)
+        burst, _ = simulate(ctx, "burst", ctx.pick(12, 60), 24, 6, keys=KEYS12, ids=("a",), ttls=[5], tickpct=5, weights=W_BURST)
         cover = cover_obj + cover_two + cover_hook
         progs = list(dress(cover, rng, follower_pct=20, restart_pct=ctx.pick(50, 100)))
         progs += dress(sims, rng, follower_pct=40, restart_pct=ctx.pick(60, 100), sc0=len(progs))
@@ -566,7 +570,7 @@ def run(ctx):
     if cnt["latefol"] == 0 and not ctx.violations:
         raise common.Infra("no follower lost an object before its own timer could fire: the log-borne DEL was never witnessed")
     # self-test of the binding on accepted runs
-    wide = {p["sc"] for p in progs if any(s.get(x) in KEYS8[2:] for s in p["h"] for x in ("k", "k2"))}
+    wide = {p["sc"] for p in progs if any(s.get(x) in KEYS12[2:] for s in p["h"] for x in ("k", "k2"))}
     accepted = {sc: lines for sc, lines in res["by_sc"].items() if sc not in rejected and sc not in wide}
     st = selftest(ctx, accepted, {p["sc"]: p for p in progs}, [p for p in progs if p["sc"] in accepted and p["tag"] == "stale"])
     d = dres["design"]
@@ -601,7 +605,7 @@ def run(ctx):
         "deadlines are intervals [clock at the start of the command + EX, clock at its end + EX] on the server's own wall clock read "
         "under the server lock by the verif hooks; 1-2 microseconds of rounding are added on the safe side",
         "Bounded is judged with the coded sweep period (200 ms: loopUntilServerStops sleeps 1/5 s although expire.go says 1/10 s) plus "
-        "1 s slack; a lateness that coincides with a measured stall > 300 ms is repeated and then INFRA, never a verdict",
+        "0.6 s slack (the probes of the programs come 1 s after the deadlines); a lateness that coincides with a measured stall > 300 ms is repeated and then INFRA, never a verdict",
         "a follower applies commands later than the leader and runs its own sweeper: it must serve nothing later than 1 s after the "
         "leader removed it and everything whose deadline has not passed; a restarted server restarts every TTL (EX is logged verbatim)",
         "polls are compacted before TLC sees them: of a run of identical replies of one poller to one command between two "
